@@ -434,6 +434,18 @@ fn c18_variant(spec: &Spec, bytes: &[u8], p: &Progress, var: usize, only: Option
 			Err(pn) => return v(&l0, format!("peppi panicked while the game read back was being serialised to JSON: {}", pn)),
 		}
 	}
+	if wanted(0) {
+		// what the reader reconstructs from the raw entries may not depend on how the stream delivers them
+		for chunk in [1usize, 5] {
+			let o = pp::de::Opts { skip_frames: false };
+			match p.timed(var << 16, || guard(|| pp::read(crate::oracles::Chunked { data: &out, pos: 0, chunk }, Some(&o)).map_err(|e| e.to_string()))) {
+				Ok(Ok(g)) => tri!(same_as_reference(&l0, &format!("the game read from the archive in reads of at most {} bytes", chunk), &g, &reference)),
+				Ok(Err(e)) if is_f3(zero, &e) && known("F3") => {}
+				Ok(Err(e)) => return v(&l0, format!("the archive cannot be read when the stream delivers at most {} bytes per read: {}", chunk, e)),
+				Err(pn) => return v(&l0, format!("the .slpp reader panicked on reads of at most {} bytes: {}", chunk, pn)),
+			}
+		}
+	}
 	if wanted(1) {
 		*ran += 1;
 		let again = tri!(source(bytes, skip, ci == 1));
